@@ -80,14 +80,18 @@ func reqID(m p9p.Message) int {
 func resultFor(m p9p.Message) (p9p.Message, error) {
 	id := reqID(m)
 	if id%2 == 1 {
-		// handlers report errors in all three shapes the server accepts
-		switch id % 6 {
+		// handlers report errors in all the shapes the server accepts: an
+		// error value, an Rerror as error (by value, by pointer), and an
+		// Rerror as the reply message itself (a relaying handler)
+		switch id % 8 {
 		case 1:
 			return nil, fmt.Errorf("e%d", id)
 		case 3:
 			return nil, p9p.MessageRerror{Ename: fmt.Sprintf("e%d", id)}
-		default:
+		case 5:
 			return nil, &p9p.MessageRerror{Ename: fmt.Sprintf("e%d", id)}
+		default:
+			return p9p.MessageRerror{Ename: fmt.Sprintf("e%d", id)}, nil
 		}
 	}
 	switch m.(type) {
